@@ -117,7 +117,7 @@ struct Registrar {
             System<TC> sys(p);
             vhist::Options opt;
             opt.max_states = (size_t)p.cap;
-            if (p.mode == 'A') opt.max_depth = -1;
+            if (p.mode == 'A' || p.mode == 'S') opt.max_depth = -1;
             else {
                 opt.max_depth = p.d;
                 for (int n = p.n0; n <= p.n1; ++n) opt.seeds.push_back({System<TC>::enc(OP_BULKN, n)});
